@@ -2,7 +2,7 @@
 import threading
 
 
-def replay(model, obligation):
+def _run(model, obligation, mode='iterate'):
     from contracts.native import rf
     cl = rf.load_cluster()
     from cassandra.protocol import ResultMessage, RESULT_KIND_ROWS, QueryMessage
@@ -82,11 +82,29 @@ def replay(model, obligation):
         return {'reproduced': bool(fails), 'detail': '; '.join(fails[:3]) or 'no disagreement'}
     try:
         rs = fut.result()
-        got = list(rs)
+        got = list(rs) if mode == 'iterate' else list(rs[0:10 ** 6])
         if got != want:
-            fails.append('pages %s: iteration gives %s' % (pages, got))
+            fails.append('pages %s: %s gives %s' % (pages, 'iteration' if mode == 'iterate' else 'indexing the result (list mode)', got))
         if requested != [None] + states[:-1]:
             fails.append('page requests carried %s, expected %s' % (requested, [None] + states[:-1]))
     except Exception as e:
         fails.append('pages %s: iteration raised %r' % (pages, e))
     return {'reproduced': bool(fails), 'detail': '; '.join(fails[:3]) or 'no disagreement'}
+
+
+def replay(model, obligation):
+    r = _run(model, obligation)
+    if r['reproduced'] or 'list-and-manual' not in obligation:
+        return r
+    # list mode (indexing / comparing a paged result materialises every page), on the model's page sizes and on results whose first page is empty
+    shapes = [None, (0, 2), (0, 0, 1), (2, 0, 1)]
+    for sh in shapes:
+        m = dict(model)
+        if sh is not None:
+            m['choice_pages'] = len(sh) - 1
+            for i, n in enumerate(sh):
+                m['choice_page%d_rows' % i] = n
+        r = _run(m, obligation, mode='index')
+        if r['reproduced']:
+            return r
+    return r
